@@ -82,6 +82,10 @@ def clique_counts(edges):
     return counts
 
 
+SKEL2_LIMIT = {"quick": 130, "thorough": 200}
+TIER = ["quick"]
+
+
 def choose_cap(edges, budget):
     """largest D such that the (D+1)-skeleton has <= budget simplices; full = the whole complex fits"""
     c = clique_counts(edges)
@@ -95,7 +99,7 @@ def choose_cap(edges, budget):
         last = d
     if last >= top:
         return max(top, 0), tot, True
-    if last < 2 and sum(c[:3]) <= 200:          # always compare H_0 and H_1 (the 2-skeleton of K_10 has 175 simplices)
+    if last < 2 and sum(c[:3]) <= SKEL2_LIMIT[TIER[0]]:          # always compare H_0 and H_1 (the 2-skeleton of K_10 has 175 simplices)
         return 1, sum(c[:3]), len(c) <= 3
     return max(last - 1, 0), tot, False
 
@@ -251,7 +255,7 @@ def generate(rng, tier):
             add("complete-7:" + st, g_complete(rng, 7, st), budget=130)
     for n in (8, 9, 10):
         for st in (("two", "some", "distinct") if th else ("few",)):
-            add("complete-%d:%s" % (n, st), g_complete(rng, n, st), budget=190 if th else 176)
+            add("complete-%d:%s" % (n, st), g_complete(rng, n, st), budget=190 if th else {8: 100, 9: 130, 10: 60}[n])
     # sparse
     for _ in range(rep * 70):
         n = rng.randint(4, 10)
@@ -259,7 +263,7 @@ def generate(rng, tier):
         add("sparse-%d" % n, g_sparse(rng, n, p, rng.choice(W_STYLES)), budget=72)
     for _ in range((rep + 2) // 3 * 6):
         n = rng.randint(8, 10)
-        add("dense-%d" % n, g_sparse(rng, n, rng.choice((0.7, 0.8, 0.9)), rng.choice(W_STYLES)), budget=110)
+        add("dense-%d" % n, g_sparse(rng, n, rng.choice((0.7, 0.8, 0.9)), rng.choice(W_STYLES)), budget=110 if th else 90)
     # Rips graphs (squared integer distances, many ties on small grids)
     for _ in range(rep * 30):
         n = rng.randint(4, 10)
@@ -381,10 +385,14 @@ def evaluate(ctx, res, bins, orc, cases, record=True):
             alts = tie_shuffles(ctx.rng, es, 2) if (first and len(es) > 1) else []
             olines.append("c %d|%s|%s|%s|%s" % (cap, " ".join("%d %d %d" % e for e in es), p[0], p[1],
                                                  "/".join(" ".join(map(str, a)) for a in alts)))
-            costs.append((nsimp / 100.0) ** 4 * (1.5 if first else 0.7))
+            costs.append(0.02 + (nsimp / 100.0) ** 4 * (2.5 if first else 1.0))
             owner.append((ci, p, tags))
             first = False
+    if record:
+        ctx.log("harness runs done; %d oracle lines" % len(olines))
     oans = run_oracle(orc, olines, costs)
+    if record:
+        ctx.log("oracle done")
     for (ci, p, tags), a, ol in zip(owner, oans, olines):
         fam, es, budget = cases[ci]
         vtag = tags[0]
@@ -466,6 +474,7 @@ def shrink(ctx, bins, orc, case, kind, budget_runs=60):
 
 def check(ctx, replay=None):
     res = core.Result()
+    TIER[0] = ctx.tier
     if not getattr(ctx, "skip_proof", False):
         ctx.prove(["Extract_C12.vo"])
     bins = ctx.build_many([("c12_drv.cpp", tag, fl) for (tag, fl) in VARIANTS])
